@@ -450,13 +450,16 @@ def _run_probe(w, build, op, n, ctx, desc, fault):
         outcome = 'returned'
     except fault.exc:
         outcome = 'boom'
-    except (KeyError, ValueError, TypeError, MemoryError, P.Boom, SystemError) as e:
+    except (KeyError, ValueError, TypeError, MemoryError, P.Boom, SystemError, IndexError) as e:
         outcome = 'exc:' + type(e).__name__
         err = repr(e)
     finally:
         count, fired = fault.disarm(n)
     del plan.call
     if n == 0:
+        if outcome == 'exc:IndexError' and ctx.known({'impl': w.impl, 'kind': w.kind, 'call': name, 'empty': not model,
+                                                      'got': "exc:'IndexError'"}):
+            outcome = 'exc:ValueError'      # open finding F21 (Python leaf minKey()/maxKey() on an empty leaf)
         if outcome == 'boom' or (outcome.startswith('exc:') and outcome not in ('exc:KeyError', 'exc:ValueError')):
             raise Violation('%s: fault-free run raised %s' % (desc, err or fault.exc.__name__),
                             dict(sig, what='faultfree-exception'))
